@@ -510,8 +510,18 @@ class CallGraph:
                         targets |= self.class_ctor_targets(lk)
                         return targets, externals, ext_methods, untyped, None
                     if q.split(".")[0] == repo.package:
-                        # a method of an object stored in a fickling module/class attribute (e.g. Analysis.ALL.append):
-                        # not an external callable; classify by method name
+                        # a method of an object stored in a fickling module/class attribute (e.g. Analysis.ALL.append,
+                        # logger.debug): if the attribute is a module-level name bound to the result of an external
+                        # call, attribute the method to that external; otherwise classify by method name
+                        owner_q = q.rsplit(".", 1)[0]
+                        mod_q, _, var = owner_q.rpartition(".")
+                        om = repo.modules.get(mod_q)
+                        vals = om.assigns.get(var, []) if om is not None else []
+                        if len(vals) == 1 and isinstance(vals[0], ast.Call):
+                            cq = repo.resolve_expr(om, vals[0].func)
+                            if cq and repo.lookup(cq) is None and not cq.startswith("builtins."):
+                                externals.add(f"{cq}.<result>.{name}")
+                                return targets, externals, ext_methods, untyped, None
                         ext_methods.add(f"value.{name}")
                         return targets, externals, ext_methods, untyped, None
                     externals.add(q)
